@@ -39,16 +39,17 @@ fn data_as_table(data: &mut Buffer<BigEndian>) -> GDResult<(HashMap<String, Vec<
 
     let rows = data.read::<u8>()? as usize;
 
-    if rows == 0 {
-        return Ok((HashMap::new(), 0));
-    }
-
     let mut column_heads = Vec::new();
 
     let mut current_column = data.read_string::<Utf8Decoder>(None)?;
     while !current_column.is_empty() {
         column_heads.push(current_column);
         current_column = data.read_string::<Utf8Decoder>(None)?;
+    }
+
+    // the column names are sent even when there are no rows
+    if rows == 0 {
+        return Ok((HashMap::new(), 0));
     }
 
     let columns = column_heads.len();
